@@ -70,6 +70,7 @@ class _Existing:
 
 class BatchSuite(Suite):
     name = "batch"
+    case_timeout = 2
 
     def setup(self):
         import jade.utils.run_command as rc
@@ -283,6 +284,10 @@ class BatchSuite(Suite):
         v = []
         sc = case["sc"]
         obs = result.get("obs") or {}
+        if result.get("timeout"):
+            msg = "the submit phase of the round did not terminate (watchdog) on a validated configuration"
+            return [Violation("C07", "batch.nontermination", msg), Violation("C05", "batch.nontermination", msg),
+                    Violation("C01", "batch.nontermination", msg)]
         if "batches" not in obs:
             return v
         if isinstance(result["model"], dict) and "error" in result["model"]:
